@@ -340,17 +340,39 @@ def run(ctx):
 
 def replay(payload):
     cb = CBuild(PID)
+    scratch = common.scratch_dir("c10r")
     try:
         drv, rdrv = build(cb)
         l = payload["case"]
-        base_line = TC.case([b"t", TC.ARC], b"\0")
-        o = common.run_lines_parallel([drv], [base_line, l])
-        base_out = {k: v for k, v in TC.outside_of(o[0].split("|", 1)[1]).items() if k != b"arc/a.lzh"}
-        now_out = TC.outside_of(o[1].split("|", 1)[1]) if "|" in o[1] else None
-        print("argv:", payload.get("argv"))
-        print("outside changed:", now_out != base_out)
-        bad = now_out != base_out
-        print("REPRODUCED" if bad else "not reproduced (for kind=%s look at the system-call order with strace)" % payload.get("kind"))
+        print("argv:", payload.get("argv"), "kind:", payload.get("kind"))
+        def outside(dump):
+            t = T.parse_dump(dump)
+            return {k: v for k, v in t.items() if not (k == b"root" or k.startswith(b"root/")) and k != b"arc/a.lzh"}
+        bad = False
+        if payload.get("kind") == "dangerous-symlink-not-created-last":
+            calls = strace_cases(drv, [l], scratch)[0] or []
+            av = TC.case_argv(l)
+            c0 = av[0][1:] if av and av[0].startswith(b"-") else (av[0] if av else b"")
+            what = order_violation(calls, b"i" in c0[1:].split(b"w")[0])
+            print("system calls of the tool (tail):", ["%s(%s) = %s" % c_ for c_ in calls[-8:]])
+            print("order oracle:", what)
+            bad = bool(what) and not what.startswith("KNOWN:")
+        elif payload.get("kind") == "read-only-command-changed-the-tree":
+            o = TC.normalise_c(l, common.run_lines_parallel([drv], [l])[0])
+            s_ = common.run_lines_parallel([common.build_model()], ["clisetup" + l[3:]])[0]
+            bad = "|" in o and "|" in s_ and T.parse_dump(o.split("|", 1)[1]) != T.parse_dump(s_.split("|", 1)[1])
+            print("tree differs from the set-up:", bad)
+        else:
+            base_line = TC.case([b"t", TC.ARC], b"\0")
+            o = common.run_lines_parallel([drv], [base_line, l])
+            base_out = outside(o[0].split("|", 1)[1])
+            now_out = outside(o[1].split("|", 1)[1]) if "|" in o[1] else None
+            d = sorted(k for k in set(now_out or {}) | set(base_out) if (now_out or {}).get(k) != base_out.get(k))
+            print("changed outside the extraction directory:", [k.decode("latin-1") for k in d])
+            bad = now_out != base_out
+        print("REPRODUCED" if bad else "not reproduced")
         return 1 if bad else 0
     finally:
+        import shutil
+        shutil.rmtree(scratch, ignore_errors=True)
         cb.close()
